@@ -88,7 +88,7 @@ func c09Scenario(p c09P, b Bounds) *Scenario {
 				ctxs := make([]context.Context, p.N)
 				cancels := make([]context.CancelFunc, p.N)
 				for k := 0; k < p.N; k++ {
-					ctxs[k], cancels[k] = context.WithCancel(context.Background())
+					ctxs[k], cancels[k] = cancelCauseCtx()
 					if p.BgCtx {
 						ctxs[k] = context.Background()
 					}
@@ -479,7 +479,7 @@ func c09Reissue(thenStop bool, b Bounds) *Scenario {
 				lib, peer, _ := NewPipe(PipeOpts{Name: "srv", CloseUnblocksRecv: true})
 				srv := jrpc2.NewServer(anyAssigner{func(context.Context, *jrpc2.Request) (any, error) { return 1, nil }}, &jrpc2.ServerOptions{AllowPush: true})
 				srv.Start(lib)
-				ctxA, cancelA := context.WithCancel(context.Background())
+				ctxA, cancelA := cancelCauseCtx()
 				var j Join
 				j.Go("caller", func() {
 					for k, ctx := range []context.Context{ctxA, context.Background()} {
@@ -666,7 +666,7 @@ func c09SendFault(b Bounds) *Scenario {
 				lib, peer, pipe := NewPipe(PipeOpts{Name: "srv", CloseUnblocksRecv: true})
 				srv := jrpc2.NewServer(anyAssigner{func(context.Context, *jrpc2.Request) (any, error) { return 1, nil }}, &jrpc2.ServerOptions{AllowPush: true})
 				srv.Start(lib)
-				ctxA, cancelA := context.WithCancel(context.Background())
+				ctxA, cancelA := cancelCauseCtx()
 				pipe.FailSend = errFault
 				_, errA := srv.Callback(ctxA, "cbA", nil)
 				vs.Note("ret", "Callback", "A", errStr(errA))
